@@ -21,7 +21,7 @@ PROP = "C19"
 CXX = os.path.join(K.VERIF, "sim", "cxx")
 CV_VARIANTS = ["cvode_dense", "cvode_sparse", "cvode_cusparse"]
 VARIANTS = CV_VARIANTS + ["odeint"]
-NEQ = 4  # H, H2, H+, e-  (checked against the rendered NEQUATIONS at build time)
+NEQ = 5  # H, H2, H+, e- and the gas temperature (checked against the rendered macros at build time)
 
 RECOVERABLE = (-1, -2, -3, -4)
 RESET = (-6,)
@@ -60,7 +60,8 @@ def build(scratch):
         srcs = [os.path.join(d, "src", "naunet.cpp"), os.path.join(CXX, "driver.cpp")]
         defs = ["-DPYMODULE", "-DPYMODNAME=pymock"]
         if v == "odeint":
-            srcs += [os.path.join(d, "src", "naunet_ode.cpp"), os.path.join(CXX, "mock_odeint.cpp")]
+            srcs += [os.path.join(d, "src", "naunet_ode.cpp"), os.path.join(d, "src", "naunet_constants.cpp"),
+                     os.path.join(CXX, "mock_odeint.cpp")]
             defs += ["-DVARIANT_ODEINT"]
         else:
             srcs += [os.path.join(CXX, "mock_cvode.cpp")]
@@ -79,8 +80,8 @@ def build(scratch):
         bins[v] = os.path.join(out, v, "driver")
     # sanity: NEQUATIONS as assumed
     mac = open(os.path.join(out, "cvode_dense", "include", "naunet_macros.h")).read()
-    if f"#define NSPECIES {NEQ}" not in mac:
-        raise K.HarnessError("rendered NSPECIES differs from the simulator's assumption")
+    if f"#define NSPECIES {NEQ - 1}" not in mac or "#define NCOOLPROCS 2" not in mac:
+        raise K.HarnessError("rendered NSPECIES / NCOOLPROCS differ from the simulator's assumption")
     return bins
 
 
@@ -232,7 +233,7 @@ def ladder_stratum():
                             outcomes.append([-1, 0.5])
                         outcomes += [[0, 1.0]] * (sub - 1) + [[fl, fr]]
                         solves.append({"mode": 0, "reset": 0, "mxsteps": 500, "dt": 3.0e10 * (1 + sub),
-                                       "y0c": [0.0, 0.25, 1.5, 7.0], "outcomes": outcomes,
+                                       "y0c": [0.0, 0.25, 1.5, 7.0, 3.0], "outcomes": outcomes,
                                        "reinit_fail": [], "setup": [-1, 0]})
                 # 32 solves on one object: group by 4 to keep runs short
                 for i in range(0, len(solves), 4):
@@ -242,17 +243,17 @@ def ladder_stratum():
         for fl in (-1, -2, -3, -4, -6, -5, -9):
             for fr in (0.0, 0.5):
                 runs.append({"variant": variant, "nsys": 1, "origin": ["persistent", fl, fr], "solves": [
-                    {"mode": m, "reset": 0, "mxsteps": 500, "dt": 1e9, "y0c": [0.0, 0.25, 1.5, 7.0],
+                    {"mode": m, "reset": 0, "mxsteps": 500, "dt": 1e9, "y0c": [0.0, 0.25, 1.5, 7.0, 3.0],
                      "outcomes": [], "reinit_fail": [], "setup": [-1, 0], "tail": [fl, fr]} for m in (0, 1)]})
         # failing re-initialisation at each level, failing set-up call at each position
         for k in range(1, 6):
             outcomes = [[-1, 0.5]] * k
             runs.append({"variant": variant, "nsys": 1, "origin": ["reinit", k], "solves": [
-                {"mode": m, "reset": 0, "mxsteps": 500, "dt": 1e9, "y0c": [0.0, 0.25, 1.5, 7.0],
+                {"mode": m, "reset": 0, "mxsteps": 500, "dt": 1e9, "y0c": [0.0, 0.25, 1.5, 7.0, 3.0],
                  "outcomes": outcomes, "reinit_fail": [[k, -22]], "setup": [-1, 0]} for m in (0, 1)]})
         for idx in range(0, 8):
             runs.append({"variant": variant, "nsys": 1, "origin": ["setup", idx], "solves": [
-                {"mode": m, "reset": 0, "mxsteps": 500, "dt": 1e9, "y0c": [0.0, 0.25, 1.5, 7.0],
+                {"mode": m, "reset": 0, "mxsteps": 500, "dt": 1e9, "y0c": [0.0, 0.25, 1.5, 7.0, 3.0],
                  "outcomes": [], "reinit_fail": [], "setup": [idx, -20]} for m in (0, 1)]})
     # ladder tree: every combination of (flag, position, progress) choices for up to three
     # consecutive failing levels, then success - 16 + 256 + 4096 scripts per variant
@@ -267,7 +268,7 @@ def ladder_stratum():
                 for level, (fl, pos, fr) in enumerate(combo):
                     g = 0 if pos == "first" else NSUB[level] - 1
                     outcomes += [[0, 1.0]] * g + [[fl, fr]]
-                batch.append({"mode": 0, "reset": 0, "mxsteps": 500, "dt": 7.5e11, "y0c": [0.0, 0.25, 1.5, 7.0],
+                batch.append({"mode": 0, "reset": 0, "mxsteps": 500, "dt": 7.5e11, "y0c": [0.0, 0.25, 1.5, 7.0, 3.0],
                               "outcomes": outcomes, "reinit_fail": [], "setup": [-1, 0]})
                 if len(batch) == 4:
                     runs.append({"variant": variant, "nsys": 1, "solves": batch, "origin": ["tree", depth]})
@@ -279,7 +280,7 @@ def ladder_stratum():
         for n in sorted({1, max(1, mx - 1), mx, mx + 1, mx + 2, 2 * mx, 10 * mx + 1}):
             for shape in (0, 1, 2):
                 runs.append({"variant": "odeint", "nsys": 1, "origin": ["budget", mx, n, shape], "solves": [
-                    {"mode": m, "reset": 0, "mxsteps": mx, "dt": 1e9, "y0c": [0.0, 0.25, 1.5, 7.0],
+                    {"mode": m, "reset": 0, "mxsteps": mx, "dt": 1e9, "y0c": [0.0, 0.25, 1.5, 7.0, 3.0],
                      "nsteps": n, "shape": shape, "throw_at": -1, "throw_kind": 0} for m in (0, 1)]})
     return runs
 
@@ -513,7 +514,7 @@ def minimise(bins, workdir, run, k, clause):
             c3 = dict(s, **{kk: c2[kk] for kk in c2})
             if fails(with_solve(c3), k):
                 s = c3
-    c2 = dict(s, y0c=[0.0, 0.25, 1.5, 7.0] * run["nsys"])
+    c2 = dict(s, y0c=[0.0, 0.25, 1.5, 7.0, 3.0] * run["nsys"])
     if fails(with_solve(c2), k):
         s = c2
     return with_solve(s), k
